@@ -44,3 +44,18 @@ def solved(cl, path, meta=None):
     from maze_dataset.maze.lattice_maze import SolvedMaze
 
     return SolvedMaze(connection_list=_layout(np.array(cl, dtype=bool)), solution=_layout(np.array(path)), generation_meta=meta)
+
+
+_SUB = {}
+
+
+def solved_subclass(cl, path, meta=None):
+    """the same maze as an instance of a user-defined subclass of SolvedMaze (the library builds instances through cls(...), so
+    subclassing is supported; a solved maze of a subclass is still a solved maze)"""
+    from maze_dataset.maze.lattice_maze import SolvedMaze
+
+    if "cls" not in _SUB:
+        class LabelledSolvedMaze(SolvedMaze):
+            pass
+        _SUB["cls"] = LabelledSolvedMaze
+    return _SUB["cls"](connection_list=_layout(np.array(cl, dtype=bool)), solution=np.array(path), generation_meta=meta)
